@@ -308,6 +308,7 @@ def _init_bc(A: spmatrix,
     if I is None and D is None:
         raise Exception("Either I or D must be given!")
     elif I is None and D is not None:
+        D = np.unique(D)  # an index listed twice is constrained once
         I = np.setdiff1d(np.arange(A.shape[0], dtype=np.int32), D)
     elif D is None and I is not None:
         D = np.setdiff1d(np.arange(A.shape[0], dtype=np.int32), I)
